@@ -2446,6 +2446,12 @@ func (s *swamp) GetTreasuresByBeacon(beaconType BeaconType, beaconOrderType Beac
 	// set the last interaction time to the current time
 	atomic.StoreInt64(&s.lastInteractionTime, time.Now().UnixNano())
 
+	// negative paging parameters come straight from the wire; the index arithmetic
+	// requires from >= 0 (a negative offset indexes before the first element)
+	if from < 0 || limit < 0 {
+		return nil, errors.New("from and limit cannot be negative")
+	}
+
 	// if the limit 0 its means that we need to get all treasures from the beacon from, the "from" parameter
 	if limit == 0 {
 		// get the element count of the beacon
